@@ -97,6 +97,20 @@ def _param_list(a: ast.arguments) -> List[Tuple[str, str, Optional[ast.expr], Op
     return out
 
 
+_POOL: List[str] = []
+
+
+def _pool_sources() -> List[str]:
+    if not _POOL:
+        from vf.gen import signature
+        for x in list(signature.DEFAULTS) + list(signature.ANNOTATIONS):
+            try:
+                _POOL.append(ast.unparse(ast.parse(x, mode='eval').body))
+            except (SyntaxError, ValueError):
+                pass
+    return _POOL
+
+
 def _expr_key(src_expr: ast.expr, role: str) -> Tuple[str, str]:
     """Attribute an expression mismatch: known C15 mechanism, or the signature pipeline itself."""
     from vf.checks import c15
@@ -134,6 +148,14 @@ def _compare(res: core.Res, what: str, src_sig: str, exp_fn: ast.FunctionDef, sh
                 if e is not None:
                     doc, _t, _x = c15._render(ast.parse(ast.unparse(e), mode='eval').body, ('inline',))
                     if doc is not None and not doc.is_complete and '...' in shown:
+                        # ... but only an expression the generic renderer may have wrapped (a long one, from the random generator) or one
+                        # that holds a line break: the hand-written pool and short expressions are never cut in a signature
+                        src_e = ast.unparse(e)
+                        has_nl = any(isinstance(c_, ast.Constant) and isinstance(c_.value, (str, bytes)) and (b'\n' if isinstance(c_.value, bytes) else '\n') in c_.value
+                                     for c_ in ast.walk(e))
+                        if not has_nl and (src_e in _pool_sources() or len(src_e) < 50):
+                            res.v('C14:expression-cut-in-signature', f'{what}: {"default" if e is d else "annotation"} {src_e[:120]!r} is shown cut ("...") in the signature {shown[:300]!r}', **w)
+                            return
                         res.c('signatures_with_truncated_expression')
                         return
         # which expression is to blame?
